@@ -83,7 +83,7 @@ type Scenario struct {
 	// NoProposerFix: do NOT put the right cached proposer back after a node reloaded its state
 	// (see the known finding "proposer-differs-after-reload"); violations that follow carry cause=...
 	NoProposerFix bool `json:"no_proposer_fix,omitempty"`
-	ViaSwitch bool `json:"via_switch,omitempty"` // nodes start their consensus through ConsensusReactor.SwitchToConsensus (the default fast_sync start path of a node) instead of a bare Start
+	ViaSwitch     bool `json:"via_switch,omitempty"` // nodes start their consensus through ConsensusReactor.SwitchToConsensus (the default fast_sync start path of a node) instead of a bare Start
 }
 
 // ValChange describes one validator-set change.
